@@ -1,6 +1,12 @@
+#[cfg(feature = "cb-std")]
 use cbverif::case::Case;
+#[cfg(feature = "cb-std")]
 use cbverif::props::{exec_replay, Prop};
+#[cfg(feature = "cb-std")]
 use cbverif::runner::{self, Stats, FLAG_NAMES};
+
+#[global_allocator]
+static GLOBAL: cbverif::alloc_engine::Counting = cbverif::alloc_engine::Counting;
 use serde_json::json;
 use std::time::Instant;
 
@@ -8,6 +14,7 @@ fn arg(args: &[String], name: &str) -> Option<String> {
     args.iter().position(|a| a == name).and_then(|i| args.get(i + 1).cloned())
 }
 
+#[cfg(feature = "cb-std")]
 fn stats_json(st: &Stats) -> serde_json::Value {
     let mut flags = serde_json::Map::new();
     for (i, n) in FLAG_NAMES.iter().enumerate() {
@@ -31,6 +38,7 @@ fn main() {
     let args: Vec<String> = std::env::args().collect();
     let cmd = args.get(1).map(|s| s.as_str()).unwrap_or("");
     match cmd {
+        #[cfg(feature = "cb-std")]
         "run" => {
             let prop = Prop::parse(&args[2]).expect("unknown property");
             let thorough = arg(&args, "--tier").as_deref() == Some("thorough");
@@ -46,9 +54,12 @@ fn main() {
             let mut report = serde_json::Map::new();
             let mut failure: Option<(String, Case, String)> = None;
             if mode == "both" || mode == "enum" {
-                let (st, found, units) = runner::run_enum(prop, thorough, threads);
+                let (st, found, unit_digests) = runner::run_enum(prop, thorough, threads);
                 let mut j = stats_json(&st);
-                j["layout_units"] = json!(units);
+                j["layout_units"] = json!(unit_digests.len());
+                if args.iter().any(|a| a == "--unit-digests") {
+                    j["unit_digests"] = json!(unit_digests.iter().map(|d| format!("{d:016x}")).collect::<Vec<_>>());
+                }
                 j["exhaustive"] = json!(found.is_none());
                 j["capacities"] = json!(prop.caps(thorough));
                 report.insert("enumerative".into(), j);
@@ -78,6 +89,22 @@ fn main() {
             runner::guards_done();
             std::fs::write(&out, serde_json::to_string_pretty(&serde_json::Value::Object(report)).unwrap()).unwrap();
         }
+        #[cfg(feature = "cb-std")]
+        "unit" => {
+            // per-case digests of one layout unit (used to localise a C18 difference)
+            let prop = Prop::parse(&args[2]).expect("unknown property");
+            let idx: usize = args[3].parse().expect("unit index");
+            let thorough = arg(&args, "--tier").as_deref() == Some("thorough");
+            let units = runner::enum_units(prop, thorough);
+            let (n, start, len) = units[idx];
+            for item in prop.enum_cases(n, start, len, thorough) {
+                match cbverif::props::exec_item(prop, &item) {
+                    Ok(r) => println!("{:016x} {}", r.digest, item.case.to_json()),
+                    Err((c, m)) => println!("FAIL {} {}", c.to_json(), m),
+                }
+            }
+        }
+        #[cfg(feature = "cb-std")]
         "replay" => {
             let prop = Prop::parse(&args[2]).expect("unknown property");
             let text = std::fs::read_to_string(&args[3]).expect("read replay file");
@@ -88,7 +115,8 @@ fn main() {
             println!("case: {}", case.render());
             runner::install_guards(&format!("{}.crash", &args[3]), 30);
             match exec_replay(prop, &case) {
-                Ok(_) => {
+                Ok((_, digest)) => {
+                    println!("trace digest: {digest:016x}");
                     println!("REPLAY-OK property={} holds on this case", prop.id());
                 }
                 Err(m) => {
@@ -97,6 +125,7 @@ fn main() {
                 }
             }
         }
+        #[cfg(feature = "cb-std")]
         "io" => {
             use cbverif::io_engine::{self as io, Api};
             let thorough = arg(&args, "--tier").as_deref() == Some("thorough");
@@ -140,6 +169,7 @@ fn main() {
             report.insert("seed".into(), json!(seed));
             std::fs::write(&out, serde_json::to_string_pretty(&serde_json::Value::Object(report)).unwrap()).unwrap();
         }
+        #[cfg(feature = "cb-std")]
         "cmp" => {
             use cbverif::cmp_engine as ce;
             let thorough = arg(&args, "--tier").as_deref() == Some("thorough");
@@ -170,6 +200,7 @@ fn main() {
             report.insert("seed".into(), json!(seed));
             std::fs::write(&out, serde_json::to_string_pretty(&serde_json::Value::Object(report)).unwrap()).unwrap();
         }
+        #[cfg(feature = "cb-std")]
         "replay-cmp" => {
             let text = std::fs::read_to_string(&args[2]).expect("read replay file");
             let v: serde_json::Value = serde_json::from_str(&text).expect("json");
@@ -184,6 +215,7 @@ fn main() {
                 }
             }
         }
+        #[cfg(feature = "cb-std")]
         "zst" => {
             use cbverif::zst_engine as ze;
             let thorough = arg(&args, "--tier").as_deref() == Some("thorough");
@@ -215,6 +247,7 @@ fn main() {
             report.insert("seed".into(), json!(seed));
             std::fs::write(&out, serde_json::to_string_pretty(&serde_json::Value::Object(report)).unwrap()).unwrap();
         }
+        #[cfg(feature = "cb-std")]
         "replay-zst" => {
             let text = std::fs::read_to_string(&args[2]).expect("read replay file");
             let v: serde_json::Value = serde_json::from_str(&text).expect("json");
@@ -229,6 +262,7 @@ fn main() {
                 }
             }
         }
+        #[cfg(feature = "cb-std")]
         "replay-io" => {
             let text = std::fs::read_to_string(&args[2]).expect("read replay file");
             let v: serde_json::Value = serde_json::from_str(&text).expect("json");
@@ -240,6 +274,43 @@ fn main() {
                 std::process::exit(5);
             }
             match cbverif::io_engine::run_io_case(&case) {
+                Ok(_) => println!("REPLAY-OK"),
+                Err(m) => {
+                    println!("REPLAY-FAIL {m}");
+                    std::process::exit(1);
+                }
+            }
+        }
+        "alloc" => {
+            use cbverif::alloc_engine as ae;
+            let thorough = arg(&args, "--tier").as_deref() == Some("thorough");
+            let seed: u64 = arg(&args, "--seed").and_then(|s| s.parse().ok()).unwrap_or(20260926);
+            let threads: usize = arg(&args, "--threads").and_then(|s| s.parse().ok()).unwrap_or(16);
+            let out = arg(&args, "--out").expect("--out");
+            let prop_cases: u32 = arg(&args, "--prop-cases").and_then(|s| s.parse().ok()).unwrap_or(if thorough { 600_000 } else { 40_000 });
+            let t0 = Instant::now();
+            let (es, ps, fail) = ae::run_alloc(thorough, seed, threads, prop_cases);
+            let sj = |st: &ae::AStats| json!({"evaluations": st.evaluations, "distinct_nontrivial": st.nontrivial.len(), "by_first_op": st.by_op, "samples": st.samples});
+            let mut report = serde_json::Map::new();
+            let mut e = sj(&es);
+            e["exhaustive"] = json!(fail.is_none());
+            report.insert("enumerative".into(), e);
+            report.insert("proptest".into(), sj(&ps));
+            if let Some((c, m, gen)) = fail {
+                report.insert("failure".into(), json!({"generator": gen, "message": m, "case": serde_json::to_value(&c).unwrap(), "rendered": c.render()}));
+            }
+            report.insert("wall_s".into(), json!(t0.elapsed().as_secs_f64()));
+            report.insert("seed".into(), json!(seed));
+            report.insert("crate_features".into(), json!(if cfg!(feature = "cb-std") { "std" } else if cfg!(feature = "cb-alloc") { "alloc" } else { "none" }));
+            std::fs::write(&out, serde_json::to_string_pretty(&serde_json::Value::Object(report)).unwrap()).unwrap();
+        }
+        "replay-alloc" => {
+            let text = std::fs::read_to_string(&args[2]).expect("read replay file");
+            let v: serde_json::Value = serde_json::from_str(&text).expect("json");
+            let cv = if v.get("case").is_some() { v["case"].clone() } else { v };
+            let case: cbverif::alloc_engine::ACase = serde_json::from_value(cv).expect("case");
+            println!("case: {}", case.render());
+            match cbverif::alloc_engine::run_acase(&case) {
                 Ok(_) => println!("REPLAY-OK"),
                 Err(m) => {
                     println!("REPLAY-FAIL {m}");
